@@ -120,14 +120,19 @@ fn check_decrypt_after_fault(ctx: &mut Ctx, delivered: &[u8], key: u32, whole: b
             return;
         }
         Decoded::Panic(p) => {
-            ctx.violate_sig("C16.no-panic", format!("decoder panicked: {}", p), p);
+            // "fails with an error instead of returning an envelope": a panic is neither
+            ctx.violate_sig("C08.fault-panics", format!("after {} the decoder panicked instead of failing with an error: {}", fault, p), p);
             return;
         }
     };
+    if let Err(p) = guarded(|| digest_of(&env2)) {
+        ctx.violate_sig("C08.fault-panics", format!("after {} the decoder returned an envelope that panics when asked for its digest: {}", fault, p), p);
+        return;
+    }
     let k = sym_key(key);
     let r = guarded(|| if whole { env2.decrypt(&k) } else { env2.decrypt_subject(&k) });
     match r {
-        Err(p) => ctx.violate_sig("C16.no-panic", format!("decrypt panicked after {}: {}", fault, p), p),
+        Err(p) => ctx.violate_sig("C08.fault-panics", format!("decrypt panicked after {} instead of failing with an error: {}", fault, p), p),
         Ok(Err(_)) => {
             ctx.probe("tampered-rejected-at-decrypt");
             ctx.t(&format!("{} -> decrypt err", fault));
@@ -159,13 +164,18 @@ fn check_uncompress_after_fault(ctx: &mut Ctx, delivered: &[u8], whole: bool, or
             return;
         }
         Decoded::Panic(p) => {
-            ctx.violate_sig("C16.no-panic", format!("decoder panicked: {}", p), p);
+            // "is rejected": a panic is not a rejection
+            ctx.violate_sig("C13.fault-panics", format!("after {} the decoder panicked instead of rejecting: {}", fault, p), p);
             return;
         }
     };
+    if let Err(p) = guarded(|| digest_of(&env2)) {
+        ctx.violate_sig("C13.fault-panics", format!("after {} the decoder returned an envelope that panics when asked for its digest: {}", fault, p), p);
+        return;
+    }
     let r = guarded(|| if whole { env2.uncompress() } else { env2.uncompress_subject() });
     match r {
-        Err(p) => ctx.violate_sig("C16.no-panic", format!("uncompress panicked after {}: {}", fault, p), p),
+        Err(p) => ctx.violate_sig("C13.fault-panics", format!("uncompress panicked after {} instead of rejecting: {}", fault, p), p),
         Ok(Err(_)) => {
             ctx.probe("tampered-rejected-at-uncompress");
             ctx.t(&format!("{} -> uncompress err", fault));
